@@ -2,7 +2,8 @@
 (* Trace validation for C04: executions of the real pyx12.x12file.X12Reader.    *)
 (* File: [lx (BOOLEAN per trace is in the trace), traces]; a trace is            *)
 (*   [id, lx, events, cleanup], an event [seg, errs, st, exc]:                   *)
-(*   seg  the abstract segment fed (the harness concretises it),                 *)
+(*   seg  the segment as the real reader parsed it: kind and, as the text of the *)
+(*        document, control number / declared count / HL01,HL02 / LX01,          *)
 (*   errs <<level, code>> pairs popped with pop_errors() after the segment,      *)
 (*   st   the reader's counters and loop stack after the segment,                *)
 (*   exc  "" or the name of the exception that escaped iteration.                *)
